@@ -14,7 +14,8 @@ RULE = ("each case: format, k<=3, N<=6, 1-12 servers with a drawn behaviour each
         "updates it in place under fault plan B; for each publish the harness records, at the server side, the share numbers whose test-and-set write was executed, "
         "accepted and answered successfully. Oracle: publish success => those acknowledged share numbers number >= k and (after reconnecting everything) a fresh client that surveys "
         "all servers retrieves exactly the new contents as the best recoverable version; when no server can acknowledge any write the publish must end in an error (not success). A publish that neither succeeds nor "
-        "fails with the system quiescent is reported as HANG. Non-trivial = a publish during which at least one write failed or was unacknowledged; distinct by whole case.")
+        "fails with the system quiescent is reported as HANG. Non-trivial = a publish during which at least one write failed or was unacknowledged; distinct by whole case."
+        " Added dimensions: an intermediate overwrite that some share holders miss (they stay listed, or leave and return so that their share numbers are re-homed), with the option that exactly the holders of the current version fail during the publish under test; a stale-survey template for grids with fewer servers than shares in which the interloper lands only part of its shares on one server and one of the writer's requests to that server is lost (oracle: a successful publish was never shown, in any answer to its writes, a share state it had neither surveyed nor written).")
 LEVEL_TEXT = "Fault-plan and schedule search with wire-level ground truth for what was acknowledged."
 ASSUMPTIONS = ["one writer (concurrent writers are C12)", "injected failures strike the write call (slot_testv_and_readv_and_writev); reads used by the survey succeed unless the server is down/disconnected"]
 REQUIRED_CLASSES = ["stale-survey-publish", "stale-survey-publish-sibling-share", "stale-shares-before-publish", "stale-shares-before-publish:new-holders-fail", "stale-shares-before-publish:share-numbers-rehomed", "success", "error", "success-with-failed-writes", "acked==k", "update", "create-under-faults", "mdmf", "sdmf", "fault-applied-but-unacked"]
